@@ -1,0 +1,16 @@
+//go:build verif
+
+package service
+
+import "github.com/containerd/stargz-snapshotter/fs/source"
+
+// VerifSourceFromCRILabels exposes the CRI-label reader to the C20 correspondence harness.
+func VerifSourceFromCRILabels(hosts source.RegistryHosts) source.GetSources {
+	return sourceFromCRILabels(hosts)
+}
+
+// VerifSources exposes the reader chain installed by NewFileSystem
+// (CRI labels first, then the default labels) to the C20 correspondence harness.
+func VerifSources(hosts source.RegistryHosts) source.GetSources {
+	return sources(sourceFromCRILabels(hosts), source.FromDefaultLabels(hosts))
+}
